@@ -17,7 +17,7 @@ ANCHORS = [("lib/debian/_deb822_repro/parsing.py",
              "Deb822DuplicateFieldsParagraphElement", "Deb822KeyValuePairElement",
              "add_final_newline_if_missing", "_convert_value_lines_to_lines"]),
            ("lib/debian/_deb822_repro/tokens.py", ["_RE_FIELD_LINE", "_RE_WHITESPACE_LINE"])]
-BUDGET = {"quick": 1500, "thorough": 14000}
+BUDGET = {"quick": 800, "thorough": 9000}
 RULE = ("documents of 1-3 paragraphs assembled from line blocks (comment lines before fields, single/multi-line "
         "values, comment lines inside values, tab continuation, empty values, odd separators after the colon, "
         "free comments/blank/whitespace-only lines between paragraphs, with and without a final LF; a tenth with "
@@ -250,11 +250,26 @@ def run_impl(case):
 # ---------------------------------------------------------------------------
 # Coq emission (shared)
 
+def cq_text(s):
+    """Escaped literal understood by Lib/Dec.v [dec], with LF and TAB written raw (a raw byte
+    decodes to its own code; seven characters fewer per line end for Coq to elaborate)."""
+    out = []
+    for ch in s:
+        c = ord(ch)
+        if (32 <= c < 127 and c not in (34, 92)) or c in (9, 10):
+            out.append(ch)
+        else:
+            out.append("\\%06x" % c)
+    return '"' + "".join(out) + '"'
+
+
 class Interner:
-    """strings that occur more than once in a case are bound once by a let"""
+    """strings (and rows of a read-out) that occur more than once in a case are bound once by a let"""
 
     def __init__(self):
         self.count = {}
+        self.rows = {}
+        self.row_names = {}
 
     def note(self, s):
         self.count[s] = self.count.get(s, 0) + 1
@@ -266,11 +281,24 @@ class Interner:
                 self.names[s] = "s%d" % len(self.names)
 
     def ref(self, s):
-        return self.names.get(s) or cq_str(s)
+        return self.names.get(s) or cq_text(s)
+
+    def note_row(self, term):
+        self.rows[term] = self.rows.get(term, 0) + 1
+
+    def finish_rows(self):
+        for t, c in self.rows.items():
+            if c > 1 and t != "[]":
+                self.row_names[t] = "r%d" % len(self.row_names)
+
+    def row(self, term):
+        return self.row_names.get(term, term)
 
     def wrap(self, term):
+        for t, nm in reversed(list(self.row_names.items())):
+            term = "let %s : list (string * result string) := %s in\n%s" % (nm, t, term)
         for s, nm in reversed(list(self.names.items())):
-            term = "let %s := %s in\n%s" % (nm, cq_str(s), term)
+            term = "let %s := %s in\n%s" % (nm, cq_text(s), term)
         return "(" + term + ")"
 
 
@@ -299,8 +327,23 @@ def cq_key(k, S):
     return "(KI %s (%d)%%Z)" % (S(k[0]), k[1])
 
 
-def cq_read(paras, S):
-    return cq_list([cq_list(["(%s, %s)" % (S(n), cq_res(v, S)) for n, v in para]) for para in paras])
+def cq_row(para, S):
+    return cq_list(["(%s, %s)" % (S(n), cq_res(v, S)) for n, v in para])
+
+
+def cq_read(paras, S, R=lambda t: t):
+    return cq_list([R(cq_row(para, S)) for para in paras])
+
+
+def cq_looks(looks, S):
+    """per re-parsed paragraph: what each alternative spelling of the key read (the spellings themselves
+    are not needed by the judgement)"""
+    return cq_list([cq_list([cq_res(v, S) for _, v in row]) for row in looks])
+
+
+def cq_pieces(text, S):
+    """a text as the list of its physical lines (decoded by concatenation): lines repeat from dump to dump"""
+    return cq_list([S(l) for l in split_lines(text)])
 
 
 def cq_item(it, S):
@@ -327,22 +370,39 @@ def cq_edit_op(op, S):
     return None
 
 
-def cq_step(st, S):
+def _reparse_rows(st):
     rp = st["reparse"]
-    rps = "None" if rp is None else "(Some %s)" % cq_list(
-        [cq_list(["(%s, %s)" % (S(n), S(v)) for n, v in para]) for para in rp])
+    return None if rp is None else [[[n, {"ok": v}] for n, v in para] for para in rp]
+
+
+def cq_step(st, S, R=lambda t: t):
+    rp = _reparse_rows(st)
+    rps = "None" if rp is None else "(Some %s)" % cq_read(rp, S, R)
     return "mkS %s %s %s %s %s" % ("None" if st["err"] is None else "(Some %s)" % st["err"],
-                                   S(st["dump"]), cq_read(st["paras"], S), rps, cq_read(st["lookups"], S))
+                                   cq_pieces(st["dump"], S), cq_read(st["paras"], S, R), rps,
+                                   cq_looks(st["lookups"], S))
 
 
 def emit_history(case, obs, op_emitter, ctor="Run"):
     I = Interner()
-    _walk_strings([case["text"], case["ops"], obs["items"], obs["init"], obs["steps"]], I.note)
+    _walk_strings([split_lines(case["text"]), case["ops"], obs["items"], obs["init"]], I.note)
+    for st in obs["steps"]:
+        _walk_strings([split_lines(st["dump"]), st["paras"], st["reparse"],
+                       [[v for _, v in row] for row in st["lookups"]]], I.note)
     I.finish()
     S = I.ref
+    for st in obs["steps"]:
+        for rows in (st["paras"], _reparse_rows(st) or []):
+            for para in rows:
+                I.note_row(cq_row(para, S))
+    for para in obs["init"]:
+        I.note_row(cq_row(para, S))
+    I.finish_rows()
+    R = I.row
     term = "%s %s %s %s %s %s" % (
-        ctor, S(case["text"]), cq_list([cq_item(it, S) for it in obs["items"]]), cq_read(obs["init"], S),
-        cq_list([op_emitter(op, S) for op in case["ops"]]), cq_list([cq_step(st, S) for st in obs["steps"]]))
+        ctor, cq_pieces(case["text"], S), cq_list([cq_item(it, S) for it in obs["items"]]),
+        cq_read(obs["init"], S, R),
+        cq_list([op_emitter(op, S) for op in case["ops"]]), cq_list([cq_step(st, S, R) for st in obs["steps"]]))
     return I.wrap(term)
 
 
